@@ -115,6 +115,8 @@ def main():
             import importlib
             return importlib.import_module(spec["custom_module"]).replay(prop, path)
         exe = build.build_engine_fi() if spec.get("fi") else build.build_engine()
+        if spec.get("needs_asmline"):
+            build.build_asmline()
         rec = json.load(open(path))
         rc, out = replay_once(exe, prop, rec["case"])
         sys.stdout.write(out)
@@ -133,6 +135,8 @@ def main():
         import importlib
         return importlib.import_module(spec["custom_module"]).run(prop, tier, seed, jobs)
     exe = build.build_engine_fi() if spec.get("fi") else build.build_engine()
+    if spec.get("needs_asmline"):
+        build.build_asmline()
     outdir = os.path.join(ROOT, "build", "run", prop)
     r = run_engine(exe, prop, tier, seed, outdir, jobs)
     agg = aggregate(outdir)
